@@ -65,10 +65,10 @@ func (e *hent) typeLabel() string {
 func (e *hent) replay() histEntry {
 	h := histEntry{Kind: e.kind}
 	if e.kind != "stream" {
-		h.Items = append(h.Items, replayItem{e.s.name, recText(dump(e.o, e.s))})
+		h.Items = append(h.Items, replayItem{e.s.name, replayRec(e.o, e.s)})
 	}
 	for _, it := range e.steps {
-		h.Items = append(h.Items, replayItem{it.s.name, recText(dump(it.o, it.s))})
+		h.Items = append(h.Items, replayItem{it.s.name, replayRec(it.o, it.s)})
 	}
 	return h
 }
